@@ -375,6 +375,14 @@ func (s *cwSched) waitQuiet(done func() int) {
 		}
 		lastPark, lastDone = np, nd
 		if quiet >= 4 {
+			if s.dbg {
+				// debug: is anything still moving 3 ms after "quiescence"?
+				time.Sleep(3 * time.Millisecond)
+				a2, _ := s.scan()
+				if a2 != 0 || s.nParked() != np || done() != nd {
+					fmt.Printf("CW LATE active=%d parked %d->%d done %d->%d\n%s\n", a2, np, s.nParked(), nd, done(), cwTrimDump(cwNonIdle(string(s.buf)), 3000))
+				}
+			}
 			return
 		}
 		if quiet > 0 || it > 20 {
@@ -384,6 +392,21 @@ func (s *cwSched) waitQuiet(done func() int) {
 			panic(core.InfraPanic(fmt.Sprintf("world C: no quiescence within 20 s (active=%d parked=%d)\n%s", a, np, cwTrimDump(string(s.buf), 6000))))
 		}
 	}
+}
+
+// cwNonIdle keeps the goroutines of a dump that mention engine code (debug aid).
+func cwNonIdle(d string) string {
+	var b strings.Builder
+	for _, g := range strings.Split(d, "\n\n") {
+		if strings.Contains(g, "openGemini/engine") && !strings.Contains(g, "minutes]") && (strings.Contains(g, "[running]") || strings.Contains(g, "[runnable]") || strings.Contains(g, "[syscall]") || strings.Contains(g, "[sleep]") || strings.Contains(g, "[IO wait]")) {
+			ls := strings.Split(g, "\n")
+			if len(ls) > 14 {
+				ls = ls[:14]
+			}
+			b.WriteString(strings.Join(ls, "\n") + "\n\n")
+		}
+	}
+	return b.String()
 }
 
 func cwTrimDump(d string, n int) string {
